@@ -1,7 +1,10 @@
 //! Health check wrapper for managing multiple resources.
 
 use crate::{HealthCheckConfig, HealthCheckedContext, HealthChecker, HealthDetail, HealthStatus};
+#[cfg(not(feature = "verif-hooks"))]
 use std::sync::atomic::AtomicUsize;
+#[cfg(feature = "verif-hooks")]
+use tower_resilience_core::verif::atomic::AtomicUsize;
 use std::sync::Arc;
 use std::time::{SystemTime, UNIX_EPOCH};
 use tokio::sync::RwLock;
